@@ -389,6 +389,14 @@ theorem tie_expiryTime_accessors :
     templateFields.contains ("expiryTime", "time.Time") = true ∧
     templateFields.contains ("expiryTimer", "timer") = true := by decide
 
+/-- the PRODUCTION clock is the standard library's: `realClock.Now` is `time.Now()` and `realClock.AfterFunc` hands out
+    the `*time.Timer` of `time.AfterFunc` itself, whose `Stop` / `Reset` contract is the one the model's timer events
+    transcribe (a `Reset` re-arms the timer also after it has fired - that is what keeps a template alive whose refresh
+    arrives while its expiry callback is in flight). The harness runs the collector on ITS clock, so a wrapper around the
+    real timer with other semantics is invisible to every input it can generate. -/
+theorem tie_production_clock_is_the_standard_timer :
+    realClockMethods = [("AfterFunc", ["return time.AfterFunc(d, f)"]), ("Now", ["return time.Now()"])] := by decide
+
 end Ties
 
 /-! ## non-vacuity -/
